@@ -234,3 +234,155 @@ fn c01_f1_message_data_predicate_empty_data() {
     let (y, _n) = law(&x, &mut buf);
     assert!(y.is_message_data_predicate(), "F1 MessageDataPredicate with empty data decodes as the same kind");
 }
+
+// ---------------------------------------------------------------------------------------------
+// C03 (frame part): prepare_sign zeroes exactly the malleable fields and leaves every other field
+// unchanged, so two values differing only in malleable fields have equal prepared images and a
+// difference in any other field survives.
+// ---------------------------------------------------------------------------------------------
+//@ props=C03 tier=quick class=proved-fin timeout=1500 -- Output::prepare_sign, every variant and value: Contract roots, Change amount, Variable to/amount/asset become zero; every other field (and Coin, ContractCreated entirely) unchanged
+#[kani::proof]
+#[kani::unwind(40)]
+fn c03_output_prepare_sign() {
+    let x = any_output();
+    let mut y = x.clone();
+    y.prepare_sign();
+    let z32 = [0u8; 32];
+    match (x, y) {
+        (Output::Coin { to, amount, asset_id }, Output::Coin { to: t2, amount: a2, asset_id: s2 }) =>
+            assert!(to == t2 && amount == a2 && asset_id == s2, "C03 coin output is not malleable"),
+        (Output::Contract(c), Output::Contract(d)) => {
+            assert!(d.input_index == c.input_index, "C03 contract output keeps its input index");
+            assert!(*d.balance_root == z32 && *d.state_root == z32, "C03 contract output roots are zeroed");
+        }
+        (Output::Change { to, amount: _, asset_id }, Output::Change { to: t2, amount: a2, asset_id: s2 }) =>
+            assert!(to == t2 && asset_id == s2 && a2 == 0, "C03 change output: only the amount is zeroed"),
+        (Output::Variable { .. }, Output::Variable { to: t2, amount: a2, asset_id: s2 }) =>
+            assert!(*t2 == z32 && a2 == 0 && *s2 == z32, "C03 variable output: recipient, amount and asset are zeroed"),
+        (Output::ContractCreated { contract_id, state_root }, Output::ContractCreated { contract_id: c2, state_root: r2 }) =>
+            assert!(contract_id == c2 && state_root == r2, "C03 contract-created output is not malleable"),
+        _ => assert!(false, "C03 prepare_sign never changes the output kind"),
+    }
+}
+
+//@ props=C03 tier=quick class=proved-fin timeout=1500 -- Input::prepare_sign for CoinSigned, Contract, MessageCoinSigned (all field values): tx pointer (coin), utxo id / roots / tx pointer (contract) zeroed; every other field unchanged
+#[kani::proof]
+#[kani::unwind(40)]
+fn c03_input_prepare_sign_fixed_kinds() {
+    let k: u8 = kani::any();
+    kani::assume(k < 3);
+    let zero_ptr = TxPointer::default();
+    if k == 0 {
+        let x = Input::coin_signed(UtxoId::new(b32().into(), kani::any()), b32().into(), kani::any(), b32().into(), any_tx_pointer(), kani::any());
+        let mut y = x.clone();
+        y.prepare_sign();
+        assert!(y.is_coin_signed() && y.tx_pointer() == Some(&zero_ptr), "C03 coin tx pointer is zeroed");
+        assert!(y.utxo_id() == x.utxo_id() && y.input_owner() == x.input_owner() && y.amount() == x.amount()
+                && y.asset_id(&AssetId::zeroed()) == x.asset_id(&AssetId::zeroed()) && y.witness_index() == x.witness_index(), "C03 every other coin field is unchanged");
+    } else if k == 1 {
+        let x = Input::contract(UtxoId::new(b32().into(), kani::any()), b32().into(), b32().into(), any_tx_pointer(), b32().into());
+        let mut y = x.clone();
+        y.prepare_sign();
+        assert!(y.is_contract() && y.contract_id() == x.contract_id(), "C03 contract id is not malleable");
+        assert!(y.utxo_id() == Some(&UtxoId::default()) && y.balance_root() == Some(&Bytes32::zeroed()) && y.state_root() == Some(&Bytes32::zeroed())
+                && y.tx_pointer() == Some(&zero_ptr), "C03 contract input: utxo id, roots and tx pointer are zeroed");
+    } else {
+        let x = Input::message_coin_signed(b32().into(), b32().into(), kani::any(), b32().into(), kani::any());
+        let mut y = x.clone();
+        y.prepare_sign();
+        assert!(y.is_message_coin_signed() && y.sender() == x.sender() && y.recipient() == x.recipient() && y.amount() == x.amount()
+                && y.nonce() == x.nonce() && y.witness_index() == x.witness_index(), "C03 signed message input is not malleable");
+    }
+}
+
+//@ props=C03 tier=quick class=bounded(predicate=1) timeout=1500 -- Input::prepare_sign for CoinPredicate: tx pointer and predicate gas used zeroed; owner, amount, asset, utxo id, predicate and predicate data unchanged
+#[kani::proof]
+#[kani::unwind(40)]
+fn c03_input_prepare_sign_coin_predicate() {
+    let p: u8 = kani::any();
+    let x = Input::coin_predicate(UtxoId::new(b32().into(), kani::any()), b32().into(), kani::any(), b32().into(), any_tx_pointer(),
+                                  kani::any(), vec![p], Vec::new());
+    let mut y = x.clone();
+    y.prepare_sign();
+    assert!(y.is_coin_predicate() && y.tx_pointer() == Some(&TxPointer::default()) && y.predicate_gas_used() == Some(0), "C03 coin predicate: tx pointer and predicate gas used are zeroed");
+    assert!(y.utxo_id() == x.utxo_id() && y.input_owner() == x.input_owner() && y.amount() == x.amount()
+            && same(y.input_predicate(), x.input_predicate()) && same(y.input_predicate_data(), x.input_predicate_data()), "C03 every other field is unchanged");
+}
+
+// ---------------------------------------------------------------------------------------------
+// C04 (repr tables): every offset reported for an input / output of a given kind points at exactly
+// the canonical bytes of that field inside the item's own encoding.
+// ---------------------------------------------------------------------------------------------
+fn at32(buf: &[u8], off: Option<usize>, want: &[u8; 32]) -> bool {
+    match off { Some(o) => { let mut ok = true; let mut i = 0; while i < 32 { if buf[o + i] != want[i] { ok = false; } i += 1; } ok } None => false }
+}
+
+//@ props=C04 tier=quick class=proved-fin timeout=1500 -- OutputRepr offset table: for every output variant and value, to / asset id / contract roots / contract id / state root offsets locate the field's bytes in the encoding, and offsets of fields the kind does not have are None
+#[kani::proof]
+#[kani::unwind(40)]
+fn c04_output_offsets() {
+    let x = any_output();
+    let mut buf = [0u8; 112];
+    let n = x.size();
+    let mut out: &mut [u8] = &mut buf[..n];
+    x.encode(&mut out).unwrap();
+    let r = x.repr();
+    match &x {
+        Output::Coin { to, asset_id, .. } | Output::Change { to, asset_id, .. } | Output::Variable { to, asset_id, .. } => {
+            assert!(at32(&buf, r.to_offset(), &**to), "C04 output `to` offset");
+            assert!(at32(&buf, r.asset_id_offset(), &**asset_id), "C04 output asset id offset");
+            assert!(r.contract_balance_root_offset().is_none() && r.contract_state_root_offset().is_none() && r.contract_id_offset().is_none());
+        }
+        Output::Contract(c) => {
+            assert!(at32(&buf, r.contract_balance_root_offset(), &*c.balance_root), "C04 contract output balance root offset");
+            assert!(at32(&buf, r.contract_state_root_offset(), &*c.state_root), "C04 contract output state root offset");
+            assert!(r.to_offset().is_none() && r.asset_id_offset().is_none());
+        }
+        Output::ContractCreated { contract_id, state_root } => {
+            assert!(at32(&buf, r.contract_id_offset(), &**contract_id), "C04 contract-created id offset");
+            assert!(at32(&buf, r.contract_created_state_root_offset(), &**state_root), "C04 contract-created state root offset");
+            assert!(r.to_offset().is_none());
+        }
+    }
+}
+
+//@ props=C04 tier=quick class=proved-fin timeout=1800 -- InputRepr offset table for CoinSigned, Contract, MessageCoinSigned (every value): utxo id, owner, asset id, tx pointer, roots, contract id, sender, recipient, nonce offsets locate the field's bytes
+#[kani::proof]
+#[kani::unwind(48)]
+fn c04_input_offsets_fixed_kinds() {
+    let k: u8 = kani::any();
+    kani::assume(k < 3);
+    let mut buf = [0u8; 200];
+    if k == 0 {
+        let (tx, owner, asset): ([u8; 32], [u8; 32], [u8; 32]) = (kani::any(), kani::any(), kani::any());
+        let x = Input::coin_signed(UtxoId::new(tx.into(), kani::any()), owner.into(), kani::any(), asset.into(), any_tx_pointer(), kani::any());
+        let n = x.size(); let mut out: &mut [u8] = &mut buf[..n]; x.encode(&mut out).unwrap();
+        let r = x.repr();
+        assert!(at32(&buf, r.utxo_id_offset(), &tx), "C04 coin utxo id offset (tx id bytes)");
+        assert!(at32(&buf, r.owner_offset(), &owner), "C04 coin owner offset");
+        assert!(at32(&buf, r.asset_id_offset(), &asset), "C04 coin asset id offset");
+        let tp = r.tx_pointer_offset().unwrap();
+        let mut pb = [0u8; 16]; let mut o: &mut [u8] = &mut pb[..]; x.tx_pointer().unwrap().encode(&mut o).unwrap();
+        let mut i = 0; while i < 16 { assert!(buf[tp + i] == pb[i], "C04 coin tx pointer offset"); i += 1; }
+        assert!(r.contract_id_offset().is_none() && r.message_sender_offset().is_none());
+    } else if k == 1 {
+        let (tx, br, sr, cid): ([u8; 32], [u8; 32], [u8; 32], [u8; 32]) = (kani::any(), kani::any(), kani::any(), kani::any());
+        let x = Input::contract(UtxoId::new(tx.into(), kani::any()), br.into(), sr.into(), any_tx_pointer(), cid.into());
+        let n = x.size(); let mut out: &mut [u8] = &mut buf[..n]; x.encode(&mut out).unwrap();
+        let r = x.repr();
+        assert!(at32(&buf, r.utxo_id_offset(), &tx), "C04 contract input utxo id offset");
+        assert!(at32(&buf, r.contract_balance_root_offset(), &br), "C04 contract input balance root offset");
+        assert!(at32(&buf, r.contract_state_root_offset(), &sr), "C04 contract input state root offset");
+        assert!(at32(&buf, r.contract_id_offset(), &cid), "C04 contract input contract id offset");
+        assert!(r.owner_offset().is_none() && r.asset_id_offset().is_none());
+    } else {
+        let (s, rc, nn): ([u8; 32], [u8; 32], [u8; 32]) = (kani::any(), kani::any(), kani::any());
+        let x = Input::message_coin_signed(s.into(), rc.into(), kani::any(), nn.into(), kani::any());
+        let n = x.size(); let mut out: &mut [u8] = &mut buf[..n]; x.encode(&mut out).unwrap();
+        let r = x.repr();
+        assert!(at32(&buf, r.message_sender_offset(), &s), "C04 message sender offset");
+        assert!(at32(&buf, r.message_recipient_offset(), &rc), "C04 message recipient offset");
+        assert!(at32(&buf, r.message_nonce_offset(), &nn), "C04 message nonce offset");
+        assert!(r.utxo_id_offset().is_none() && r.contract_id_offset().is_none());
+    }
+}
